@@ -367,9 +367,10 @@ def render_fn(d, log):
         else:
             cnt = text.count(frm)
             new = text.replace(frm, to)
-        if cnt != n:
+        if n is not None and cnt != n:
             raise LostAnchor(f'{d.qual}: rewrite {rule} expected {n} match(es) of {frm!r}, found {cnt}')
-        log.append(dict(rule=rule, fn=d.qual, frm=frm, to=to, count=cnt))
+        if cnt:
+            log.append(dict(rule=rule, fn=d.qual, frm=frm, to=to, count=cnt))
         text = new
     if text.count('\x00') != 1:
         raise UnitError(f'{d.qual}: rewrite destroyed the signature/body boundary')
@@ -444,7 +445,17 @@ def render_item(relpath, kind, name, opts, pre_lines, log):
             raise LostAnchor(f'struct {name}: kept field(s) {sorted(missing)} not found')
         text = text[:o + 1] + '\n' + ',\n'.join(kept) + ',\n' + text[c:]
         log.append(dict(rule='D4', item=name, pruned=pruned))
-    if kind == 'struct' and opts.get('pubfields'):
+    if opts.get('pub') and not re.match(r'\s*pub\b', text):
+        text = 'pub ' + text
+        log.append(dict(rule='D3', item=name, what='private item made pub'))
+    if kind == 'struct' and opts.get('pubfields') and text.find('{') < 0 and text.find('(') >= 0:
+        o = text.find('(')
+        c = text.rfind(')')
+        fields = split_top_commas(text[o + 1:c])
+        newf = [f if re.match(r'\s*pub\b', f) else re.sub(r'^(\s*)', r'\1pub ', f, count=1) for f in fields]
+        text = text[:o + 1] + ','.join(newf) + text[c:]
+        log.append(dict(rule='D3', item=name, what='private tuple fields made pub'))
+    elif kind == 'struct' and opts.get('pubfields'):
         # rule D3 (fields): private fields become `pub` so that contracts of pub functions may mention them
         o = text.find('{')
         c = text.rfind('}')
@@ -550,7 +561,7 @@ def generate(unit_path):
                     d.loops[k] = []
                     mode = ('loop', k)
                 elif w2[0] in ('rw', 'rwx'):
-                    cur = dict(rule=w2[1], n=int(w2[2]), **{'from': [], 'to': []}, re=(w2[0] == 'rwx'))
+                    cur = dict(rule=w2[1], n=(None if w2[2] == '*' else int(w2[2])), **{'from': [], 'to': []}, re=(w2[0] == 'rwx'))
                     d.rws.append(cur)
                     mode = ('rw', None)
                 elif w2[0] == 'ins':
